@@ -40,7 +40,7 @@ type Command struct {
 	Lang      string `xml:"lang,attr,omitempty"`
 
 	// Result sets
-	ResultSet *ResultSet `xml:"set,omitempty"`
+	ResultSet *ResultSet `xml:"http://jabber.org/protocol/rsm set,omitempty"`
 }
 
 func (c *Command) Namespace() string {
